@@ -215,6 +215,41 @@ def deep_sources(check, family, seed, num, depth=14):
     return sorted(set(out), key=lambda x: -len(x))
 
 
+def token_mutations(check, family, seed, nprogs, per=6):
+    """near-valid programs: token-level edits (delete, duplicate, swap neighbours, replace by another token of the same program,
+    truncate after a token) of SyntaxGen derivations rendered with single blanks.  They reach the error paths of grammar actions
+    and of the recovery that byte-level noise rarely reaches.  Returns list of bytes."""
+    import random as _r
+    rng = _r.Random(seed * 131 + (5 if family == "5" else 7))
+    table, behs = syntax.generate(check, family, num=nprogs, seed=seed + 51, depth=3)
+    out = []
+    for i, b in enumerate(behs):
+        try:
+            P = syntax.Program(table, b, _r.Random(seed * 17 + i))
+        except syntax.Skip:
+            continue
+        P.render(syntax.layout_uniform("none"))
+        toks = [t.text for t in P.toks]
+        if len(toks) < 2:
+            continue
+        for _ in range(per):
+            k = rng.randrange(len(toks))
+            t2 = list(toks)
+            op = rng.randrange(5)
+            if op == 0:
+                del t2[k]
+            elif op == 1:
+                t2.insert(k, t2[k])
+            elif op == 2 and k + 1 < len(t2):
+                t2[k], t2[k + 1] = t2[k + 1], t2[k]
+            elif op == 3:
+                t2[k] = toks[rng.randrange(len(toks))]
+            else:
+                t2 = t2[:k + 1]
+            out.append(b"<?php " + b" ".join(t2))
+    return list(dict.fromkeys(out))
+
+
 NOT_SCALABLE = {"heredoc/empty", "nowdoc/empty", "stmt+halt"}     # D6 (known finding) / must be last
 
 
